@@ -1,3 +1,3 @@
 #!/bin/bash
-# kill all processes whose cwd is under /var/tmp/tcheran-verif/$1-*
-for p in $(ls /proc | grep -E '^[0-9]+$'); do d=$(readlink /proc/$p/cwd 2>/dev/null); case "$d" in /var/tmp/tcheran-verif/$1-*) kill -9 $p 2>/dev/null; echo "killed $p $d";; esac; done
+# kill all processes whose cwd is under /var/tmp/tcheran-verif/$1* ($1 = PROP or PROP-pid); never use pkill -f
+for p in $(ls /proc | grep -E '^[0-9]+$'); do d=$(readlink /proc/$p/cwd 2>/dev/null); case "$d" in /var/tmp/tcheran-verif/$1*) kill -9 $p 2>/dev/null; echo "killed $p $d";; esac; done
